@@ -14,9 +14,9 @@ extern "C" {
 namespace sim {
 namespace {
 
-enum GenFault { G_NONE, G_ZERO_RAND, G_SK_ZERO, G_SK_OVER, G_ZERO_KEYOBJ, G_BAD_CACHE, G_NFAULTS };
+enum GenFault { G_NONE, G_ZERO_RAND, G_SK_ZERO, G_SK_OVER, G_ZERO_KEYOBJ, G_BAD_CACHE, G_KEYPAIR_SK_DAMAGED, G_NFAULTS };
 enum SignFault { S_NONE, S_OTHER_KEY, S_NEG_KEY, S_ZERO_KEYPAIR, S_NULL_OUT, S_BAD_CACHE, S_BAD_SESSION, S_ZEROED_SLOT, S_NULL_KEYPAIR, S_NULL_CACHE, S_NULL_SESSION, S_STATIC_CTX, S_NFAULTS };
-const char *const GFN[] = {"ok", "zero_secrand", "seckey_zero", "seckey_overflow", "zeroed_key_object", "bad_cache"};
+const char *const GFN[] = {"ok", "zero_secrand", "seckey_zero", "seckey_overflow", "zeroed_key_object", "bad_cache", "keypair_secret_half_damaged"};
 const char *const SFN[] = {"ok", "other_keypair", "negated_keypair", "zeroed_keypair", "null_output", "bad_cache", "bad_session", "zeroed_slot", "null_keypair", "null_cache", "null_session", "static_context"};
 
 bool all_zero(const void *p, size_t n) { const uint8_t *b = (const uint8_t *)p; for (size_t i = 0; i < n; i++) if (b[i]) return false; return true; }
@@ -44,7 +44,9 @@ bool partial_sign_not_static() {
 }
 
 struct Slot {
-    secp256k1_musig_secnonce sn;
+    alignas(16) unsigned char raw[sizeof(secp256k1_musig_secnonce) + 16];
+    size_t off = 0;   // the object needs no alignment: it lives at a byte offset 0..7
+    secp256k1_musig_secnonce &snr() { return *(secp256k1_musig_secnonce *)(raw + off); }
     secp256k1_musig_pubnonce pn; bool have_pn = false;
     bool live = false; int key = -1; int gen_id = -1;   // model
 };
@@ -57,6 +59,7 @@ static Plan nonce_api_generate(uint64_t seed, int tier) {
     p.cfg["inseed"] = (int64_t)(g.next() >> 1);
     p.cfg["slots"] = (int64_t)g.range(1, 3);
     p.cfg["rand_ctx"] = (int64_t)g.below(2);
+    p.cfg["slot_off"] = g.chance(1, 2) ? (int64_t)g.below(512) : 0;
     int nops = (int)g.range(1, tier ? 16 : 12);
     bool faulty = g.chance(3, 4);
     for (int i = 0; i < nops; i++) {
@@ -64,7 +67,7 @@ static Plan nonce_api_generate(uint64_t seed, int tier) {
         if (g.chance(2, 5)) {
             o.k = "gen";
             int f = (faulty && g.chance(1, 3)) ? (int)g.range(1, G_NFAULTS - 1) : G_NONE;
-            o.a = {(int64_t)g.below(3), (int64_t)g.below(2), f, (int64_t)g.below(2), (int64_t)g.below(16), g.chance(1, 4) ? (int64_t)g.range(1, 2) : 0};
+            o.a = {(int64_t)g.below(3), (int64_t)g.below(2), f, (int64_t)g.below(2), (int64_t)g.below(16), g.chance(1, 4) ? (int64_t)g.range(1, 2) : 0, g.chance(1, 2) ? (int64_t)g.below(8) : 0};
         } else {
             o.k = "sign";
             int f = (faulty && g.chance(1, 2)) ? (int)g.range(1, S_NFAULTS - 1) : S_NONE;
@@ -106,7 +109,7 @@ static void nonce_api_execute(const Plan &p, const ExecOpts &, Result &r) {
     if (!setup_ok || g_mon.illegal_count) { r.violate("C13", "setup", "setup", "setup of keys / cache / sessions failed: " + g_mon.last_illegal); L(secp256k1_context_destroy(ctx)); monitors_epilogue(r, 0, 0); return; }
 
     Slot slots[3];
-    for (auto &s : slots) memset(&s.sn, 0, sizeof s.sn);
+    for (int i = 0; i < 3; i++) { slots[i].off = (size_t)((p.c("slot_off") >> (3 * i)) & 7); memset(slots[i].raw, 0, sizeof slots[i].raw); }
     int gen_counter = 0;
     uint64_t nonrep = 1;
     struct Sig { int gen_id; int sess; uint8_t s[32]; int opno; };
@@ -122,13 +125,19 @@ static void nonce_api_execute(const Plan &p, const ExecOpts &, Result &r) {
             if (api == 1 && f == G_ZERO_RAND) f = G_NONE;          // no randomness argument in the counter variant
             if (api == 1 && (f == G_SK_ZERO || f == G_SK_OVER)) f = G_ZERO_KEYOBJ;  // the key comes from the keypair object
             std::string cell = std::string("gen") + (api ? "_counter" : "") + ":" + (s.live ? "live" : "zero") + ":" + GFN[f] + ((api == 0 && o.arg(5) % 3) ? (o.arg(5) % 3 == 1 ? "+alias_extra" : "+alias_msg") : "");
-            uint8_t secrand[32]; fresh32(secrand);
+            // buffers need no alignment: place the randomness at a byte offset 0..7 inside a larger area
+            alignas(16) uint8_t rand_area[48]; uint8_t *secrand = rand_area + (size_t)(o.arg(6) & 7); fresh32(secrand);
             if (f == G_ZERO_RAND) memset(secrand, 0, 32);
             uint8_t skarg[32]; memcpy(skarg, sk[key], 32);
             if (f == G_SK_ZERO) memset(skarg, 0, 32);
             if (f == G_SK_OVER) memset(skarg, 0xff, 32);
             secp256k1_pubkey pkarg = pk[key]; secp256k1_keypair kparg = kp[key];
             if (f == G_ZERO_KEYOBJ) { memset(&pkarg, 0, sizeof pkarg); memset(&kparg, 0, sizeof kparg); }
+            if (f == G_KEYPAIR_SK_DAMAGED) {
+                // the keypair object was damaged where it was kept: the secret half reads back erased, the public half is intact
+                if (api == 0) f = G_SK_OVER; else memset(kparg.data, (mask & 1) ? 0xff : 0x00, 32);
+                if (api == 0) memset(skarg, 0xff, 32);
+            }
             const secp256k1_musig_keyagg_cache *carg = f == G_BAD_CACHE ? &bad_cache : ((mask & 1) ? &cache : NULL);
             const unsigned char *marg = (mask & 2) ? msg[0] : NULL;
             uint8_t extra[32]; fresh32(extra);
@@ -140,8 +149,8 @@ static void nonce_api_execute(const Plan &p, const ExecOpts &, Result &r) {
             const unsigned char *skp = (api == 0 && (mask & 8) && f != G_SK_ZERO && f != G_SK_OVER) ? NULL : skarg;
             secp256k1_musig_pubnonce pn; memset(&pn, 0x5c, sizeof pn);
             int64_t ill0 = g_mon.illegal_count;
-            int ret = api == 0 ? L01(secp256k1_musig_nonce_gen(ctx, &s.sn, &pn, secrand, skp, &pkarg, marg, carg, earg))
-                               : L01(secp256k1_musig_nonce_gen_counter(ctx, &s.sn, &pn, nonrep++, &kparg, marg, carg, earg));
+            int ret = api == 0 ? L01(secp256k1_musig_nonce_gen(ctx, &s.snr(), &pn, secrand, skp, &pkarg, marg, carg, earg))
+                               : L01(secp256k1_musig_nonce_gen_counter(ctx, &s.snr(), &pn, nonrep++, &kparg, marg, carg, earg));
             int64_t ill = g_mon.illegal_count - ill0;
             bool expect = f == G_NONE;
             if (f != G_NONE) { r.fault(std::string("gen.") + GFN[f]); r.expected_illegal += ill; }
@@ -149,8 +158,8 @@ static void nonce_api_execute(const Plan &p, const ExecOpts &, Result &r) {
             r.ev(cell + " -> " + std::to_string(ret));
             if (expect && ill) { r.violate("C13", "callback", api ? "secp256k1_musig_nonce_gen_counter" : "secp256k1_musig_nonce_gen", "illegal callback on valid arguments: " + g_mon.last_illegal); break; }
             if ((ret != 0) != expect) { r.violate("C13", "gen_result", api ? "secp256k1_musig_nonce_gen_counter" : "secp256k1_musig_nonce_gen", cell + ": returned " + std::to_string(ret) + ", model expects " + std::to_string(expect)); break; }
-            if (!ret && !all_zero(&s.sn, sizeof s.sn)) { r.violate("C13", "secnonce_live_after_failed_gen", api ? "secp256k1_musig_nonce_gen_counter" : "secp256k1_musig_nonce_gen", cell + ": secret nonce object not zeroed although generation failed"); break; }
-            if (ret && all_zero(&s.sn, sizeof s.sn)) { r.violate("C13", "gen_result", "secp256k1_musig_nonce_gen", cell + ": success but the secret nonce object is all-zero"); break; }
+            if (!ret && !all_zero(&s.snr(), sizeof(secp256k1_musig_secnonce))) { r.violate("C13", "secnonce_live_after_failed_gen", api ? "secp256k1_musig_nonce_gen_counter" : "secp256k1_musig_nonce_gen", cell + ": secret nonce object not zeroed although generation failed"); break; }
+            if (ret && all_zero(&s.snr(), sizeof(secp256k1_musig_secnonce))) { r.violate("C13", "gen_result", "secp256k1_musig_nonce_gen", cell + ": success but the secret nonce object is all-zero"); break; }
             if (ret && api == 0 && !all_zero(secrand, 32)) { r.violate("C13", "secrand_not_wiped", "secp256k1_musig_nonce_gen", cell + ": session_secrand32 not zeroed after success"); break; }
             s.live = ret != 0; s.key = ret ? key : -1; s.gen_id = ret ? gen_counter++ : -1; s.have_pn = ret != 0; if (ret) s.pn = pn;
             r.cover.insert("cell:" + cell);
@@ -159,7 +168,7 @@ static void nonce_api_execute(const Plan &p, const ExecOpts &, Result &r) {
         } else if (o.k == "sign") {
             Slot &s = slots[(size_t)(((o.arg(0) % nslots) + nslots) % nslots)];
             int f = (int)(((o.arg(1) % S_NFAULTS) + S_NFAULTS) % S_NFAULTS), si = (int)(o.arg(2) & 1);
-            if (f == S_ZEROED_SLOT) { memset(&s.sn, 0, sizeof s.sn); s.live = false; }   // a never-initialised object
+            if (f == S_ZEROED_SLOT) { memset(&s.snr(), 0, sizeof(secp256k1_musig_secnonce)); s.live = false; }   // a never-initialised object
             std::string cell = std::string("sign:") + (s.live ? "live" : "zero") + ":" + SFN[f];
             int key = s.live ? s.key : (int)(o.arg(3) & 1);
             int kidx = key;
@@ -173,12 +182,12 @@ static void nonce_api_execute(const Plan &p, const ExecOpts &, Result &r) {
             const secp256k1_musig_session *volatile sarg = f == S_BAD_SESSION ? &bad_sess : (f == S_NULL_SESSION ? NULL : &sess[si]);
             const secp256k1_keypair *volatile kpp = f == S_NULL_KEYPAIR ? NULL : &kparg;
             // observation at callback time (probe only: the header defines behaviour for callbacks that return or abort the process)
-            g_watch = &s.sn; g_watch_live_at_cb = 0;
+            g_watch = &s.snr(); g_watch_live_at_cb = 0;
             bool was_live = s.live;
             int64_t ill0 = g_mon.illegal_count;
             // the static context: a valid argument unless the header of the tree under test says otherwise
             const secp256k1_context *cx = f == S_STATIC_CTX ? secp256k1_context_static : ctx;
-            int ret = L01(secp256k1_musig_partial_sign(cx, outp, &s.sn, kpp, carg, sarg));
+            int ret = L01(secp256k1_musig_partial_sign(cx, outp, &s.snr(), kpp, carg, sarg));
             g_watch = nullptr;
             if (was_live && g_watch_live_at_cb) r.probe("secnonce_still_live_inside_illegal_callback");
             int64_t ill = g_mon.illegal_count - ill0;
@@ -189,7 +198,7 @@ static void nonce_api_execute(const Plan &p, const ExecOpts &, Result &r) {
             r.cmp();
             r.ev(cell + " -> " + std::to_string(ret));
             if (!was_live) r.probe("sign_on_dead_nonce");
-            if (!all_zero(&s.sn, sizeof s.sn)) { r.violate("C13", "secnonce_not_wiped", "secp256k1_musig_partial_sign", cell + ": secret nonce object not all-zero after the call returned " + std::to_string(ret)); break; }
+            if (!all_zero(&s.snr(), sizeof(secp256k1_musig_secnonce))) { r.violate("C13", "secnonce_not_wiped", "secp256k1_musig_partial_sign", cell + ": secret nonce object not all-zero after the call returned " + std::to_string(ret)); break; }
             if (expect && ill) { r.violate("C13", "callback", "secp256k1_musig_partial_sign", "illegal callback on a valid signing call: " + g_mon.last_illegal); break; }
             if ((ret != 0) != expect) { r.violate("C13", expect ? "sign_failed" : (was_live ? "signed_despite_invalid_argument" : "signed_with_dead_nonce"), "secp256k1_musig_partial_sign", cell + ": returned " + std::to_string(ret) + ", the single-use model expects " + std::to_string(expect)); break; }
             if (!ret && memcmp(&out, &out0, sizeof out) != 0 && s.have_pn && f != S_ZERO_KEYPAIR && f != S_NULL_KEYPAIR) {
